@@ -150,7 +150,7 @@ def wake(rng):
 def delete(rng):
     """C12: DeleteSubscription against open streams (request half open or closed), blocked pulls
     and in-flight ack / modify / pull requests."""
-    g = ConcGen(rng)
+    g = ConcGen(rng, caps=(1, 1, 2, 4, 16))
     g.setup(1, 1, dls=(10,))
     s = sorted(g.subs)[0]
     t = g.topics[0]
@@ -174,10 +174,17 @@ def delete(rng):
             g.emit("sleep 5000000")
             g.emit("sread %d" % k)
             k += 1
-    for c in range(rng.range(0, 3)):
+    # a third of the cases: many requests at the very instant of the deletion, so that the
+    # subscription's mailbox stays full while the deletion is in progress
+    loaded = rng.chance(1, 3)
+    for c in range(rng.range(4, 10) if loaded else rng.range(0, 3)):
         g.emit("task r%d" % c)
-        g.emit("sleep %d" % rng.choice([999000, 1000000, 1000000, 1001000]))
-        g.pause()
+        g.emit("sleep %d" % (1000000 if loaded else rng.choice([999000, 1000000, 1000000, 1001000])))
+        if loaded:
+            if rng.chance(1, 2):
+                g.emit("yield %d" % rng.range(1, 4))
+        else:
+            g.pause()
         op = rng.below(5)
         if op == 0:
             g.emit("ack %s %s" % (hx(s), g.acks(2)))
@@ -423,7 +430,67 @@ def namerace(rng):
     return g.lines
 
 
-PROFILES = {"namerace": namerace, "race": race, "swallow": swallow, "mix": mix, "wake": wake, "delete": delete, "burst": burst, "cancel": cancel}
+def wakecancel(rng):
+    """C06 corner: a delivery expires while several consumers wait (one wake-up); the consumer that
+    is woken gets its pull into the mailbox and is abandoned before the actor takes it out. Nobody
+    sends another request: the remaining consumers must still get the message (at the latest when
+    the abandoned pull's lease expires)."""
+    g = ConcGen(rng, caps=(1, 2, 16))
+    g.setup(1, 1, dls=(10,))
+    s = sorted(g.subs)[0]
+    t = g.topics[0]
+    g.emit("pub %s %s" % (hx(t), _payload(rng, "w")))
+    g.emit("pull %s 1 1" % hx(s))                       # leased; expires at +10 s on a whole tick
+    order = ["victim"] + ["waiter%d" % i for i in range(rng.range(1, 2))]
+    if rng.chance(1, 3):
+        order.reverse()
+    for name in order:
+        g.emit("task " + name)
+        if name == "victim":
+            # the abort is scheduled on the very tick of the expiry, k scheduler steps later
+            if rng.chance(2, 3):
+                # parked, woken by the expiry, polled k times with nobody else running, abandoned
+                g.emit("dropw%d %d pull %s 1 0" % (rng.choice([1, 1, 1, 2, 3]), rng.choice([10000500, 10000500, 10001500]), hx(s)))
+            else:
+                g.emit("dropat%d %d pull %s 1 0" % (rng.range(0, 7), rng.choice([10000000, 10000000, 10001000]), hx(s)))
+        else:
+            g.emit("pull %s 1 0" % hx(s))
+    g.emit("task probe")
+    for d in (10002000, 10205000, 10410000):
+        g.emit("sleep %d" % d)
+        g.emit("probe " + hx(s))
+    g.emit("go")
+    g.epilogue()
+    return g.lines
+
+
+def pubdel(rng):
+    """C08 / C09: publishes racing DeleteTopic (and re-creation) of their topic: a publisher that
+    resolved the topic before the deletion may be served by the deleted topic's actor after it."""
+    g = ConcGen(rng, caps=(1, 2, 16))
+    g.setup(1, 1, dls=(10,))
+    s = sorted(g.subs)[0]
+    t = g.topics[0]
+    g.emit("pub %s %s" % (hx(t), jl(_payload(rng, "pre") for _ in range(rng.range(1, 3)))))
+    for i in range(rng.range(2, 4)):
+        g.emit("task p%d" % i)
+        if rng.chance(1, 2):
+            g.emit("yield %d" % rng.range(0, 5))
+        g.emit("pub %s %s" % (hx(t), jl(_payload(rng, "r%d" % i) for _ in range(rng.range(1, 3)))))
+    g.emit("task d")
+    if rng.chance(1, 2):
+        g.emit("yield %d" % rng.range(0, 5))
+    g.emit("dtopic " + hx(t))
+    if rng.chance(1, 2):
+        g.emit("ctopic " + hx(t))
+        g.emit("pub %s %s" % (hx(t), _payload(rng, "again")))
+    g.emit("go")
+    g.emit("pull %s 1000 1" % hx(s))
+    g.emit("stats " + hx(s))
+    return g.lines
+
+
+PROFILES = {"wakecancel": wakecancel, "pubdel": pubdel, "namerace": namerace, "race": race, "swallow": swallow, "mix": mix, "wake": wake, "delete": delete, "burst": burst, "cancel": cancel}
 
 
 def cases(rng, profile, n):
